@@ -96,8 +96,18 @@ def mk_type(rng, kind):
     return type(nm, (Exception,), {}), None, f"dynamic {nm}"
 
 
+def _deep_list(depth):
+    x = []
+    for _ in range(depth):
+        x = [x]
+    return x
+
+
 def attr_values(rng):
     return [
+        # built-in containers whose rendering fails: an int beyond the str() digit limit inside, nesting deeper than the recursion limit
+        [10**5000], (10**5000,), {"code": 10**5000}, frozenset([10**5000]), [[10**5000]], _deep_list(100000),
+    ] + [
         None, True, False, 0, 1, -1, 200, 401, 403, 400, 404, 409, 408, 429, 500, 503, 599, 600, 10**30, -500, 422, 10**5000, -(10**5000), 10**4299, 10**4300,
         0.0, 429.0, 1.5, math.nan, math.inf, -math.inf, "", "429", "abc", "500", b"429", b"", (), (429,), [500], {"a": 1}, {1, 2}, frozenset(), object(), 3 + 4j, range(3), Ellipsis, NotImplemented, ValueError("x"),
     ]
